@@ -34,6 +34,17 @@ func main() {
 		code = 0
 		return
 	}
+	if os.Args[1] == "shard" {
+		var i, n int
+		fmt.Sscan(os.Args[4], &i)
+		fmt.Sscan(os.Args[5], &n)
+		code = checks.ShardMain(os.Args[2], os.Args[3], i, n)
+		return
+	}
+	if os.Args[1] == "replica" {
+		code = checks.ReplicaMain()
+		return
+	}
 	if os.Args[1] == "replay" {
 		code = checks.ReplayFile(os.Args[2])
 		return
